@@ -3,17 +3,19 @@
 (* Sequential reference model of one node for schema evolution (C19) and   *)
 (* restarts (C14).                                                         *)
 (*                                                                         *)
-(* One collection T whose schema version k (1..nver) knows the fields      *)
-(* f1..fk (each patch adds one field).  Documents keep every value ever    *)
-(* written; a query shows a document through the ACTIVE version: the       *)
-(* fields that version knows, null where nothing was written.              *)
+(* One collection T.  Schema versions form a TREE: a patch derives a new   *)
+(* version k from the version that is active at that moment (vpar[k]) and  *)
+(* adds field fk, so version k knows the fields on its path from the root. *)
+(* Documents keep every value ever written; a query shows a document       *)
+(* through the ACTIVE version: the fields that version knows, null where   *)
+(* nothing was written.                                                    *)
 (*   - a patch or a switch of the active version never changes a stored    *)
 (*     value, a document id or the commit history (C19);                   *)
 (*   - Restart changes nothing at all (C14): it is a stuttering step on    *)
 (*     the abstract state; the driver additionally runs a twin node that   *)
 (*     is never restarted.                                                 *)
 (***************************************************************************)
-EXTENDS Integers, Sequences, FiniteSets, TLC
+EXTENDS Integers, Sequences, FiniteSets, TLC, SequencesExt
 
 CONSTANTS Docs, MaxVer, MaxVal, MaxSteps,
           IndexOpsAnytime   \* FALSE: secondary indexes are created / dropped only while a single schema version exists
@@ -24,19 +26,24 @@ Fields == 1..MaxVer                 \* field k is added by version k
 VARIABLES st,       \* st[d] : "absent" | "live" | "deleted"
           vals,     \* vals[d][f] : value or NoVal
           ncommits, \* ncommits[d] : number of document-level commits (history length)
-          nver, active, indexes, steps, hist
-vars == <<st, vals, ncommits, nver, active, indexes, steps, hist>>
-view == <<st, vals, ncommits, nver, active, indexes, steps>>
+          nver, active, indexes, steps, hist,
+          vpar      \* vpar[k] : the version from which version k was derived (0 for the first)
+vars == <<st, vals, ncommits, nver, active, indexes, steps, hist, vpar>>
+view == <<st, vals, ncommits, nver, active, indexes, steps, vpar>>
 
 Init == /\ st = [d \in Docs |-> "absent"] /\ vals = [d \in Docs |-> [f \in Fields |-> NoVal]]
         /\ ncommits = [d \in Docs |-> 0]
         /\ nver = 1 /\ active = 1 /\ indexes = {} /\ steps = 0 /\ hist = <<>>
+        /\ vpar = [k \in 1..MaxVer |-> 0]
 
-Known == 1..active                    \* fields the active version knows
-Row(d) == [f \in Known |-> vals[d][f]]
+RECURSIVE Path(_)
+Path(k) == IF k = 0 THEN {} ELSE {k} \cup Path(vpar[k])
+Known == Path(active)                 \* fields the active version knows
+KnownSeq == SetToSortSeq(Known, <)
+Row(d) == [i \in 1..Len(KnownSeq) |-> vals[d][KnownSeq[i]]]
 Obs == [rows |-> {<<d, Row(d)>> : d \in {x \in Docs : st[x] = "live"}},
         deleted |-> {d \in Docs : st[d] = "deleted"},
-        fields |-> Known, nver |-> nver, active |-> active, indexes |-> indexes,
+        fields |-> KnownSeq, nver |-> nver, active |-> active, indexes |-> indexes,
         commits |-> ncommits]
 Log(e) == /\ hist' = Append(hist, [e EXCEPT !.obs = Obs']) /\ steps' = steps + 1
 E(op) == [op |-> op, d |-> 0, f |-> 0, v |-> 0, k |-> 0, obs |-> <<>>]
@@ -45,23 +52,27 @@ Create(d, v) == /\ st[d] = "absent"
                 /\ st' = [st EXCEPT ![d] = "live"]
                 /\ vals' = [vals EXCEPT ![d] = [f \in Fields |-> IF f = 1 THEN v ELSE NoVal]]
                 /\ ncommits' = [ncommits EXCEPT ![d] = 1]
-                /\ UNCHANGED <<nver, active, indexes>> /\ Log([E("create") EXCEPT !.d = d, !.v = v])
+                /\ UNCHANGED <<nver, active, indexes, vpar>> /\ Log([E("create") EXCEPT !.d = d, !.v = v])
 Update(d, f, v) == /\ st[d] = "live" /\ f \in Known
                    /\ vals' = [vals EXCEPT ![d][f] = v] /\ ncommits' = [ncommits EXCEPT ![d] = @ + 1]
-                   /\ UNCHANGED <<st, nver, active, indexes>> /\ Log([E("update") EXCEPT !.d = d, !.f = f, !.v = v])
+                   /\ UNCHANGED <<st, nver, active, indexes, vpar>> /\ Log([E("update") EXCEPT !.d = d, !.f = f, !.v = v])
 Delete(d) == /\ st[d] = "live" /\ st' = [st EXCEPT ![d] = "deleted"] /\ ncommits' = [ncommits EXCEPT ![d] = @ + 1]
-             /\ UNCHANGED <<vals, nver, active, indexes>> /\ Log([E("delete") EXCEPT !.d = d])
-\* a patch adds field nver+1 and (setAsDefault) makes the new version active
-Patch(setActive) == /\ nver < MaxVer /\ active = nver
-                    /\ nver' = nver + 1 /\ active' = IF setActive THEN nver + 1 ELSE active
+             /\ UNCHANGED <<vals, nver, active, indexes, vpar>> /\ Log([E("delete") EXCEPT !.d = d])
+\* a patch derives version nver+1 from the active version, adding field nver+1; setAsDefault makes it active
+Patch(setActive) == /\ nver < MaxVer
+                    /\ nver' = nver + 1 /\ vpar' = [vpar EXCEPT ![nver + 1] = active]
+                    /\ active' = IF setActive THEN nver + 1 ELSE active
                     /\ UNCHANGED <<st, vals, ncommits, indexes>> /\ Log([E("patch") EXCEPT !.k = IF setActive THEN 1 ELSE 0])
+\* a schema patch inside an explicit transaction that is then discarded: nothing happened
+DiscardedPatch == /\ nver < MaxVer
+                  /\ UNCHANGED <<st, vals, ncommits, nver, active, indexes, vpar>> /\ Log(E("discardedpatch"))
 SetActive(k) == /\ k \in 1..nver /\ k # active /\ active' = k
-                /\ UNCHANGED <<st, vals, ncommits, nver, indexes>> /\ Log([E("setactive") EXCEPT !.k = k])
+                /\ UNCHANGED <<st, vals, ncommits, nver, indexes, vpar>> /\ Log([E("setactive") EXCEPT !.k = k])
 IndexCreate(f) == /\ f \in Known /\ f \notin indexes /\ (IndexOpsAnytime \/ nver = 1) /\ indexes' = indexes \cup {f}
-                  /\ UNCHANGED <<st, vals, ncommits, nver, active>> /\ Log([E("indexcreate") EXCEPT !.f = f])
+                  /\ UNCHANGED <<st, vals, ncommits, nver, active, vpar>> /\ Log([E("indexcreate") EXCEPT !.f = f])
 IndexDrop(f) == /\ f \in indexes /\ (IndexOpsAnytime \/ nver = 1) /\ indexes' = indexes \ {f}
-                /\ UNCHANGED <<st, vals, ncommits, nver, active>> /\ Log([E("indexdrop") EXCEPT !.f = f])
-Restart == /\ UNCHANGED <<st, vals, ncommits, nver, active, indexes>> /\ Log(E("restart"))
+                /\ UNCHANGED <<st, vals, ncommits, nver, active, vpar>> /\ Log([E("indexdrop") EXCEPT !.f = f])
+Restart == /\ UNCHANGED <<st, vals, ncommits, nver, active, indexes, vpar>> /\ Log(E("restart"))
 
 Next == /\ steps < MaxSteps
         /\ \/ \E d \in Docs, v \in 0..MaxVal : Create(d, v)
@@ -70,13 +81,13 @@ Next == /\ steps < MaxSteps
            \/ \E b \in BOOLEAN : Patch(b)
            \/ \E k \in 1..MaxVer : SetActive(k)
            \/ IndexCreate(1) \/ IndexDrop(1)          \* secondary index on the base field
-           \/ Restart
+           \/ Restart \/ DiscardedPatch
 Spec == Init /\ [][Next]_vars
 
 \* C19 as action properties: schema operations never alter stored data
 IsSchemaOp == nver' # nver \/ active' # active
 SchemaOpsKeepData == [][IsSchemaOp => (st' = st /\ vals' = vals /\ ncommits' = ncommits)]_vars
 \* C14: a restart is invisible
-RestartInvisible == [][(hist' # hist /\ hist'[Len(hist')].op = "restart") => Obs' = Obs]_vars
+RestartInvisible == [][(hist' # hist /\ hist'[Len(hist')].op \in {"restart", "discardedpatch"}) => Obs' = Obs]_vars
 AddedFieldsStartNull == \A d \in Docs : \A f \in Fields : f > nver => vals[d][f] = NoVal
 =============================================================================
